@@ -162,7 +162,18 @@ export function assembleModule(rng, { decls, call, imports = ['defineComponent']
     const names = [...new Set(texts.map((t) => (t.match(/(?:type|interface) (\w+)/) || [])[1]).filter(Boolean))];
     const outer = names.map((n) => `interface ${n} { wrongOuter${n}: string }`).join('\n');
     const body = texts.map((t) => t.replace(/^export /, '')).join('\n  ');
-    return `${imp}\n${outer}\n${extra}\nfunction make() {\n  ${body}\n  return ${call};\n}\nexport const Comp = make();\n`;
+    // the scope may be a function declaration or only reachable through an expression
+    const form = local === true ? 'fnDecl' : local;
+    const head = `${imp}\n${outer}\n${extra}\n`;
+    switch (form) {
+      case 'arrow': return `${head}const make = () => {\n  ${body}\n  return ${call};\n};\nexport const Comp = make();\n`;
+      case 'fnExpr': return `${head}const make = function () {\n  ${body}\n  return ${call};\n};\nexport const Comp = make();\n`;
+      case 'iife': return `${head}export const Comp = (() => {\n  ${body}\n  return ${call};\n})();\n`;
+      case 'objMethod': return `${head}const holder = { make() {\n  ${body}\n  return ${call};\n} };\nexport const Comp = holder.make();\n`;
+      case 'classMethod': return `${head}class K { make() {\n  ${body}\n  return ${call};\n} }\nexport const Comp = new K().make();\n`;
+      case 'afterReturnless': return `${head}function make() {\n  const r = ${call};\n  ${body}\n  return r;\n}\nexport const Comp = make();\n`;
+      default: return `${head}function make() {\n  ${body}\n  return ${call};\n}\nexport const Comp = make();\n`;
+    }
   }
   let before = texts, after = [];
   if (order === 'after') { before = []; after = texts; }
@@ -228,7 +239,7 @@ export function encodeEmits(rng, names, out) {
     if (r === 1) { const k = fresh('N'); decl(`type ${k} = ${ns.map(q).join(' | ')};`); return k; }
     const k1 = fresh('N'), k2 = fresh('N'); decl(`type ${k1} = ${q(ns[0])};`); decl(`type ${k2} = ${[k1, ...ns.slice(1).map(q)].join(' | ')};`); return k2;
   };
-  const form = rng.pick(['fnType', 'unionOfFnTypes', 'callSigLiteral', 'callSigInterface', 'extendsChain', 'propertySyntax', 'aliasOfFn', 'intersection', 'exportedInterface', 'mixedDuplicates']);
+  const form = rng.pick(['fnType', 'unionOfFnTypes', 'callSigLiteral', 'callSigInterface', 'extendsChain', 'propertySyntax', 'aliasOfFn', 'intersection', 'exportedInterface', 'mixedDuplicates', 'extendsAlias', 'extendsAliasChain', 'extendsPropertyAlias']);
   out.ops.push(form);
   switch (form) {
     case 'fnType': return `(e: ${nameUnion(names)}, ...args: any[]) => void`;
@@ -241,6 +252,28 @@ export function encodeEmits(rng, names, out) {
       const base = fresh('E'), mid = fresh('E'), top = fresh('E');
       decl(`interface ${base} { (e: ${nameUnion(a)}): void }`); decl(`interface ${mid} extends ${base} {}`);
       decl(`interface ${top} extends ${mid} { ${b.map((x) => `(e: ${q(x)}): void`).join('; ')} }`);
+      return top;
+    }
+    case 'extendsAlias': {
+      const k = Math.max(1, Math.floor(names.length / 2)); const a = names.slice(0, k), b = names.slice(k);
+      const base = fresh('E'), top = fresh('E');
+      decl(`type ${base} = { (e: ${nameUnion(a)}): void };`);
+      decl(`interface ${top} extends ${base} { ${b.map((x) => `(e: ${q(x)}): void`).join('; ')} }`);
+      return top;
+    }
+    case 'extendsAliasChain': {
+      const k = Math.max(1, Math.floor(names.length / 2)); const a = names.slice(0, k), b = names.slice(k);
+      const i0 = fresh('E'), al = fresh('E'), top = fresh('E');
+      decl(`interface ${i0} { (e: ${nameUnion(a)}): void }`); decl(`type ${al} = ${i0} & { ${b.map((x) => `(e: ${q(x)}): void`).join('; ')} };`);
+      decl(`interface ${top} extends ${al} {}`);
+      return top;
+    }
+    case 'extendsPropertyAlias': {
+      const k = Math.max(1, Math.floor(names.length / 2)); const a = names.slice(0, k), b = names.slice(k);
+      const base = fresh('E'), top = fresh('E');
+      const prop = (x) => `${/^[A-Za-z_$][\w$]*$/.test(x) ? x : q(x)}: [v: string]`;
+      decl(`type ${base} = { ${a.map(prop).join('; ')} };`);
+      decl(`interface ${top} extends ${base} { ${b.map(prop).join('; ')} }`);
       return top;
     }
     case 'propertySyntax': return `{ ${names.map((x) => `${/^[A-Za-z_$][\w$]*$/.test(x) ? x : q(x)}: [v: string]`).join('; ')} }`;
